@@ -61,6 +61,11 @@ fn main() {
                 }
             }
         }
+        "debug-enabled" => {
+            let s = std::fs::read_to_string(&args[2]).expect("read");
+            let v: serde_json::Value = serde_json::from_str(&s).expect("parse");
+            engines::cluster::debug_enabled(&v);
+        }
         "replay" => {
             let s = std::fs::read_to_string(&args[2]).expect("read replay file");
             let v: serde_json::Value = serde_json::from_str(&s).expect("parse replay file");
